@@ -35,7 +35,7 @@ CHECKS["C02"] = dict(
     level_text="Histories of <=40 connect/subscribe/unsubscribe/publish/link/reconnect requests from 1-4 clients (valid and refused keys, malformed "
                "topics, me=0, QoS 0/1, link shortcuts with auto-subscribe) run through the real accept path; after every request every client's "
                "received packets are compared with the model (exact recipient set, one copy, topic without key, payload unchanged, error reply with "
-               "request id and unchanged subscription count for refused requests, empty index after all clients closed). A second leg runs single-connection sessions over a scripted broker-side socket on which exactly one write fails (transient failure): the connection either ends or is still sent every other packet it is owed. Sessions also hold $share group filters (oracle: one member per group, never more share-only receivers than groups) and re-issue earlier link requests.",
+               "request id and unchanged subscription count for refused requests, empty index after all clients closed). A second leg runs single-connection sessions over a scripted broker-side socket on which exactly one write fails (transient failure): the connection either ends or is still sent every other packet it is owed. Sessions also hold $share group filters (oracle: one member per group, never more share-only receivers than groups) and re-issue earlier link requests. A further CONNECT on a connection that already has a session is accepted and changes nothing the connection holds. A slow-subscriber leg stalls a subscriber's reads for 3.5-6.5 s while matching messages (up to 40 kB) are published: it must receive every one, whole, in order, once.",
     level_note="Trusted: paho packets codec on the client side, net.Pipe transport, protocol barriers (PUBACK/PINGRESP/close signal), reference matcher. "
                "Storage and cluster disabled/quiescent; emitter matcher mode only.",
     rule="rapid-generated histories; non-trivial = history in which a publish is delivered to a connection holding >=2 filters after >=1 effective "
@@ -112,7 +112,7 @@ CHECKS["C13"] = dict(
                "changed the receiver, be nil exactly when nothing changed, and leave the receiver at the pointwise maximum (volatile and durable receivers, "
                "ops/snapshots/relayed deltas, with and without encode hops). (b) 1-6 payloads (ops, deltas, live full states) are queued on 1-3 links of the "
                "transcribed sender, one object possibly on several links; the decoded join of what is put on the wire must dominate the join of what was queued. "
-               "Non-coalescing schedules are asserted strictly; failures with >=1 pending.Merge(new) call match the listed finding. (c) merges of the same payloads arriving over several links at once, racing local operations: every (entry, time) is handed on by at most one merge, and by exactly one if only gossip carried it. Payloads may carry a subset of an unknown type (never news); one plain leg merges a 150 000-subscription payload (one transport frame, > 10 MiB decoded) completely.",
+               "Non-coalescing schedules are asserted strictly; failures with >=1 pending.Merge(new) call match the listed finding. (c) merges of the same payloads arriving over several links at once, racing local operations: every (entry, time) is handed on by at most one merge, and by exactly one if only gossip carried it. Payloads may carry a subset of an unknown type (never news); one plain leg merges a 150 000-subscription payload (one transport frame, > 10 MiB decoded) completely. A damaged-payload leg hands the broker's gossip entry points (OnGossip / OnGossipBroadcast) payloads whose first subsets decode and carry news while a later one does not (short value, empty value, entry cut short): whatever changed the broker's state must be in a delta returned without error (rejecting the whole payload is fine).",
     level_note="Trusted: the lattice model, the 40-line transcription of mesh gossipSender.Send/Broadcast/pick (vkit/gsender.go). For (b) the implementation "
                "is known to violate the property whenever payloads coalesce (listed finding), so (b) separates 'fails as listed' from 'fails otherwise' only.",
     rule="(a) non-trivial = history containing a merge whose payload entry has one changed and one unchanged time field; (b) non-trivial = >=2 payloads queued. "
@@ -132,7 +132,7 @@ CHECKS["C17"] = dict(
                "consumer must read exactly the stream and the socket's final error; (b) generated Write/Flush/wait sequences at flush rates 1..1000: the socket "
                "must always hold a prefix of, and finally exactly, the bytes written (direct, queued and timer-flushed paths observed); (c) generated WebSocket "
                "message sequences (binary/text/empty, control frames interleaved, fragment sizes 1..4096, EOF with or after the data) through the adapter, one "
-               "binary message per write; (d) the same through a real gorilla client with small write buffers (real continuation frames) against TryUpgrade. (e) the real multiplexing listener on loopback TCP in the broker's configuration: whatever the opening bytes and TCP chunking, the sub-listener reads the client's bytes and the client the server's; clients may stall past a short sniffing deadline after fewer than 8 bytes; WebSocket messages up to 140 000 bytes.",
+               "binary message per write; (d) the same through a real gorilla client with small write buffers (real continuation frames) against TryUpgrade. (e) the real multiplexing listener on loopback TCP in the broker's configuration: whatever the opening bytes and TCP chunking, the sub-listener reads the client's bytes and the client the server's; clients may stall past a short sniffing deadline after fewer than 8 bytes; WebSocket messages up to 140 000 bytes. The write leg also scripts one socket write that accepts part of its data and fails (transient): nothing may arrive twice or out of order, nothing may be lost beyond what the socket refused. A write-during-timer-flush leg holds the periodic flush inside the socket write while concurrent rate-limited writes queue up, releases it and only waits: every write must arrive whole and once with no further write coming to the rescue.",
     level_note="Trusted: the fake socket / frame source (40 lines each), gorilla/websocket as the client in (d). More than 5 consecutive empty WebSocket messages are "
                "not generated (bufio gives up after 100 empty reads: a documented reader limit).",
     rule="rapid-generated cases; non-trivial = (a) >=1 matcher peeked and the consumer's first read is either small (<8) or spans the replay boundary, (b) >=1 queued "
@@ -153,7 +153,7 @@ CHECKS["C06"] = dict(
     level_text="Stores of 0-40 messages (two contracts whose key prefixes collide by construction plus a third, channels of depth 1-4, a 6-second band so many "
                "messages share a second, expired and live TTLs, payloads up to 60 KiB against the 64 KiB cap, retained TTL) and 1-6 queries each (literal first "
                "level, '+' elsewhere, windows cutting the band, limits 0..2^62, continuation from the oldest id to exhaustion or from an arbitrary returned id): "
-               "the returned multiset, its order, the fields of every message, page disjointness and the union of pages are compared with the reference. Further legs ask through the other observation point, emitter/history/ requests to a broker with an in-memory and a disk store (options last/from/until, paging with startFromID, refusals), feed undecodable replies of other cluster members into the two-node survey, and continue with ids obtained from a wider query than the window in force. Message bands may lie 10 000 s or 35 days in the past with ttls that keep them alive (older than the retention period).",
+               "the returned multiset, its order, the fields of every message, page disjointness and the union of pages are compared with the reference. Further legs ask through the other observation point, emitter/history/ requests to a broker with an in-memory and a disk store (options last/from/until, paging with startFromID, refusals), feed undecodable replies of other cluster members into the two-node survey, and continue with ids obtained from a wider query than the window in force. Message bands may lie 10 000 s or 35 days in the past with ttls that keep them alive (older than the retention period). On the disk provider a quarter of the cases close and reopen the store between the stores and the queries (history asked for in another life of the broker).",
     level_note="Trusted: the 40-line reference (key order = time desc then creation order desc, cumulative payload+id+channel <= 65536), message.New/ID.SetTime for "
                "construction, wall clock only with margins (messages are either expired by >=500 s or live for >=1 h). The main legs use a nil surveyor; the two-node leg plays the cluster surveyor itself (request handed to the peer store's OnSurvey). "
                "Negative limits are out of the property's domain (C09 covers them).",
@@ -278,7 +278,7 @@ CHECKS["C08"] = dict(
                "and an oversize length. After the close barrier: the index dump equals the bystanders' entries exactly, the connection counter is back, the will "
                "watcher got the will exactly once iff CONNECT was complete and the will key may publish, the presence watcher got one unsubscribe per "
                "subscription still held (and the subscribe/unsubscribe notifications of the processed requests in order, with the username), bystanders got "
-               "exactly the victim's processed publishes, and a later publish reaches the bystander once. A second enumeration leg injects write faults: the victim's whole request stream is readable but the broker's k-th write to it fails (from then on, or only once), for every k of the fault-free run; sessions contain blocks of filters whose ssids share the per-connection counter hash (two-, three- and four-way). Victim sessions also hold $share filters and duplicate subscribes inside the colliding-filter blocks.",
+               "exactly the victim's processed publishes, and a later publish reaches the bystander once. A second enumeration leg injects write faults: the victim's whole request stream is readable but the broker's k-th write to it fails (from then on, or only once), for every k of the fault-free run; sessions contain blocks of filters whose ssids share the per-connection counter hash (two-, three- and four-way). Victim sessions also hold $share filters and duplicate subscribes inside the colliding-filter blocks. A session may send CONNECT again on the same connection (same or another will): the will of the most recent CONNECT is the one that must fire exactly once (if the most recent one carries none while an earlier did, none or that one are accepted).",
     level_note="Trusted: paho codec, the close signal of the wrapped pipe (Conn.Close ends with socket.Close), the presence-queue sentinel barrier, waiting for the "
                "acknowledgement of every complete packet before ending (so the processed prefix is known). Process kill / internal panics outside the decoder "
                "are not injected.",
@@ -314,7 +314,7 @@ CHECKS["C14"] = dict(
     level_text="Histories of <=30 operations on two brokers and two keys: keyban requests (ban/unban with the master key) at either broker, uses of the key "
                "(publish or subscribe) at either broker interleaved everywhere, delivery of everything one broker has broadcast to the other (the other may or "
                "may not have looked the key up before), and restarts of a broker on its state directory after any prefix. After an acknowledged ban every use on "
-               "that broker is refused, after an acknowledged unban accepted, a restart preserves the state, the other broker follows once the gossip is merged. A concurrency leg toggles the ban (requests and merged gossip) while six goroutines keep presenting the key: the next use after each acknowledgement must see the new status.",
+               "that broker is refused, after an acknowledged unban accepted, a restart preserves the state, the other broker follows once the gossip is merged. A concurrency leg toggles the ban (requests and merged gossip) while six goroutines keep presenting the key: the next use after each acknowledgement must see the new status. Restarts may find the ban file with a damaged tail (a torn record, or bytes that are no record): the broker may refuse to start (the file is then repaired and it starts again) or start with every acknowledged ban in force; the broker that came back often merges the other broker's broadcasts before anything else.",
     level_note="Trusted: paho codec, a capturing mesh.Gossip stub (payload bytes taken at broadcast time, merged through the real OnGossipBroadcast), the real "
                "wall clock as the LWW clock (operations are far more than a nanosecond apart). Restart = clean Close + NewService in the main leg; the 'kill' leg runs the broker in a child process and SIGKILLs it after an "
                "acknowledgement (process death only, no power-loss model).",
@@ -334,7 +334,7 @@ CHECKS["C09"] = dict(
                "payloads, frames, survey requests and messages handed to OnGossip / OnGossipBroadcast / OnGossipUnicast / OnSurvey / DecodeMessage, benign "
                "(truthful lengths, minimum sizes) and hostile (short keys/values/ids, lying length prefixes, truncation, huge snappy claims, garbage). Oracle per "
                "input: the child neither exits nor hangs, the attacked connection's goroutine terminates when the client goes away, a canary client's subscribe/publish/"
-               "echo/unsubscribe loop still works, TotalAlloc delta <= 4 KiB per input byte + 16 MiB, oversize declarations are refused. A further leg lets 2-8 well-formed clients (plain, wildcard and $share subscribers) publish at the same moment in the child broker: it must survive and keep serving.",
+               "echo/unsubscribe loop still works, TotalAlloc delta <= 4 KiB per input byte + 16 MiB, oversize declarations are refused. A further leg lets 2-8 well-formed clients (plain, wildcard and $share subscribers) publish at the same moment in the child broker: it must survive and keep serving. Concurrent-clients cases may include a payload of 65520-65532 bytes published through a two-character shortcut (fits coming in, not going out): nobody can be sent it, and every client must still be served.",
     level_note="Trusted: the child-worker protocol (unacknowledged input = culprit), RLIMIT_AS 3 GB making out-of-memory observable, hand-rolled encoders of the "
                "kelindar/binary + snappy wire formats. Aborts on the cluster port are matched against the listed findings by the innermost emitter frame; an "
                "abort at an unlisted site, any abort/hang from the client port, or a hostile input that breaks the canary is a violation. Slow-consumer "
@@ -371,7 +371,7 @@ CHECKS["C15"] = dict(
     level_text="Per generated case 2-5 consecutive lives on one directory, each ending by SIGKILL after 0-150 ms or after 1-300 acknowledgements, by a self-kill "
                "the instant the last Store of a concurrent burst returned, or by a clean Close. After every life a fresh process opens the directory: the store "
                "must open, every message whose Store had returned must come back with identical id, channel, payload and ttl, no message twice while paging, "
-               "and nothing that was never submitted (submitted-but-unacknowledged may go either way). The fresh reader process may store a message before it reads (publish before the first history request after a restart); a life may end by a clean shutdown while the storers keep going (refused stores are not acknowledged, acknowledged ones must be durable).",
+               "and nothing that was never submitted (submitted-but-unacknowledged may go either way). The fresh reader process may store a message before it reads (publish before the first history request after a restart); a life may end by a clean shutdown while the storers keep going (refused stores are not acknowledged, acknowledged ones must be durable). Lives may follow each other unread (runs of 3-5 lives ending in a kill before anybody reads; what was acknowledged is checked after a later life). A torn-log-delete leg constructs the directory a kill leaves while the store deletes the log of a flushed memtable (zero-length .mem file, any position): the store must open and return everything.",
     level_note="Process death only (SIGKILL): power loss / fsync behaviour (SyncWrites=false) is not observable in this sandbox and not claimed. Trusted: the "
                "TRY/ACK line protocol over a pipe (an ACK line is written only after Store returned).",
     rule="one generated case = 2-5 kill/restart cycles; non-trivial = a life ended by a kill with >=1 acknowledged store and stores in flight (or a self-kill right after "
@@ -391,7 +391,7 @@ CHECKS["C05"] = dict(
                "for every broker and channel the remote subscribers in its index must equal the brokers with a live matching local subscriber; a QoS-1 probe "
                "publish must reach every matching client cluster-wide once, with exactly one forwarded frame per other broker that has a subscriber and none to "
                "the others. Classes A and A' are asserted strictly, as are 'a full-state exchange with nothing in flight changes nothing' and 'no route to a "
-               "garbage-collected peer is left'; other failures in B, C, D must match a listed finding. Class J adds a broker that joins late (first full-state exchange carries several subscriptions and tombstones at once); a first-contact leg delivers the first two updates about an unknown broker over two links concurrently. Class L breaks a link between two brokers that stay reachable through the others (no garbage collection; what was queued on the link is lost) and requires routing to be right after one anti-entropy round; generators include a 1 100-character channel, immediate unsubscribe+subscribe of a held channel and bursts of one client on one channel.",
+               "garbage-collected peer is left'; other failures in B, C, D must match a listed finding. Class J adds a broker that joins late (first full-state exchange carries several subscriptions and tombstones at once); a first-contact leg delivers the first two updates about an unknown broker over two links concurrently. Class L breaks a link between two brokers that stay reachable through the others (no garbage collection; what was queued on the link is lost) and requires routing to be right after one anti-entropy round; generators include a 1 100-character channel, immediate unsubscribe+subscribe of a held channel and bursts of one client on one channel. Class P: a partition nobody has noticed (two brokers, or three in a line; the only link between two of them breaks, nobody is garbage collected): unicasts to the far side fail, subscriptions come and go on both sides, the link returns with a full-state exchange - afterwards routes are exact again (what a broker believes about a broker it cannot reach is not judged meanwhile).",
     level_note="Trusted: the transcription of mesh's gossipSender and gossipChannel relay logic (vkit/gsender.go, vkit/simnet.go, ~250 lines; full-mesh and line "
                "topologies), which replaces the real mesh router, TCP and topology gossip; crdt.Now is a harness counter. 'Once quiesced' is checked, not "
                "'eventually quiesces'. Outside A/A' the implementation is known to violate the property (listed findings), so there the check separates "
